@@ -16,8 +16,14 @@ EXTENDS SNF, Decode, LinAlg
 IntEntry(R, x) == CASE R.k = "I" -> x [] R.k = "Z" -> BToInt(x) [] R.k = "Q" -> BToInt(x.n) [] R.k = "F" -> x
 IntRows(R, A) == [i \in 1..A.m |-> [j \in 1..A.n |-> IntEntry(R, A.a[i][j])]]
 HasIntView(R) == R.k \in {"I", "Z", "Q", "F"}
+\* rational matrices: every row is scaled by the lcm of its denominators (the rank does not change)
+RECURSIVE LcmSeq(_)
+LcmSeq(s) == IF s = <<>> THEN 1 ELSE LET x == Head(s)  r == LcmSeq(Tail(s)) IN (x * r) \div IGcd(x, r)
+QRowsScaled(A) == [i \in 1..A.m |-> LET l == LcmSeq([j \in 1..A.n |-> BToInt(A.a[i][j].d)]) IN
+                                      [j \in 1..A.n |-> BToInt(A.a[i][j].n) * (l \div BToInt(A.a[i][j].d))]]
 \* rank of a matrix over (the fraction field of) R
-RankR(R, A) == CASE R.k \in {"I", "Z", "Q"} -> RankZ(IntRows(R, A))
+RankR(R, A) == CASE R.k \in {"I", "Z"} -> RankZ(IntRows(R, A))
+                 [] R.k = "Q" -> RankZ(QRowsScaled(A))
                  [] R.k = "F" -> RankP(IntRows(R, A), R.p)
                  [] OTHER -> RankByMinors(R, A)
 \* a torsion coefficient list agrees with the spec's up to units / order (multisets of absolute values) - integers only
